@@ -34,6 +34,11 @@ def run(ctx):
             trees.append({'pkg': pkg, 'kind': kind, 'imports': imports, 'shift': len(trees)})
             # the same file reached through a symbolic link at the top-level package (its target directory has another name)
             trees.append({'pkg': pkg, 'kind': kind, 'imports': imports, 'link': len(trees) + 1, 'shift': len(trees) + 5})
+            if kind == 'plain' and depth >= 2:
+                # a module called like one of the packages it lies in (util/util.py, core/core.py): the text of its own name occurs
+                # earlier in its dotted name
+                for nm in sorted(set(pkg[1:])):
+                    trees.append({'pkg': pkg, 'kind': kind, 'imports': imports, 'modfile': nm, 'shift': len(trees) + 1})
             # a search-path entry inside the package, at every depth
             for k in range(1, depth + 1):
                 trees.append({'pkg': pkg, 'kind': kind, 'imports': imports, 'inner_path': k, 'shift': len(trees) + 2})
@@ -65,7 +70,7 @@ def run(ctx):
         if r['got'] != r['expected']:
             bad = [(g, e) for g, e in zip(r['got'], r['expected']) if g != e]
             ctx.fail('AstTreeModuleProfiler rewrote a relative import differently from Python\'s resolution (or touched names/aliases)',
-                     {'finding_class': None, 'case': {k: t[k] for k in ('pkg', 'kind', 'link', 'inner_path') if k in t}, 'first_differences(got,expected)': bad[:4]})
+                     {'finding_class': None, 'case': {k: t[k] for k in ('pkg', 'kind', 'link', 'inner_path', 'modfile') if k in t}, 'first_differences(got,expected)': bad[:4]})
         nontrivial.add(json.dumps([t['pkg'], t['kind']]))
     ctx.coverage.update({
         'evaluations': len(units) + len(trees), 'distinct_nontrivial': len(nontrivial),
